@@ -16,7 +16,7 @@ CFG = {
     "manifest": {
         "level": "proof",
         "text": "Lean 4 refinement theorems (Props/C04.lean) over a representation-level model of bitstr.rs (buffer heap with reference counts and borrowed/owned flag, handles {start,end,buf}): for every heap and every well-formed handle — any start offset, any slack and stale bits after the end, borrowed or owned, shared or unique — each operation returns exactly what the plain List Bool operation returns and does not panic. Byte-level facts about cut_bits are a finite table (18 432 cases, decide +kernel) lifted by induction over chunks. The model is tied to /repo by differential execution of operation sequences over handle pools (state of every live handle compared after every operation) and an independent Vec<bool> oracle plus direct representation-independence checks on the implementation.",
-        "note": "PROVED (Props/C04.lean, all heaps/offsets/ownership): iter8, bits, seek, peek, substr, read, split_at, detach (incl. the unique-owner and packed-copy paths), eq_with (byte-slice fast path and iter8 path), to_bytes, to_bytes_with_padding, bytestr, slice, to_hex_string; isolation of every other handle for seek/peek/substr/read/split_at/clone/drop/detach. VALIDATED ONLY (correspondence + Vec<bool> oracle, statements kept in the file): append (fast/slow path with truncate+mask), insert, invert and their isolation; from_hex_str/from_bin_str/BitvecBuilder. Trusted: Lean kernel; axioms within {propext, Classical.choice, Quot.sound}; hand-written heap model of Rc/Cow validated by correspondence; iterators collected eagerly in the model; lengths < 2^32 bits. slice()/is_u8_slice() are alignment-dependent by contract; seek/substr positions are absolute by design.",
+        "note": "PROVED (Props/C04.lean, all heaps/offsets/ownership): iter8, bits, seek, peek, substr, read, split_at, detach (incl. the unique-owner and packed-copy paths), eq_with (byte-slice fast path and iter8 path), to_bytes, to_bytes_with_padding, bytestr, slice, to_hex_string, append (byte-aligned fast path and bit loop, after truncate+mask of the slack bits), insert (valid and out-of-range index), invert, from_hex_str and BitvecBuilder::from_bin_str against the list-level parsers (same bits, same error position); isolation of every other handle for seek/peek/substr/read/split_at/clone/drop/detach and, through the `Frame` of the heap, for append/insert/invert (in-place mutation only when the count is 1). Byte-level facts are finite tables (cut_bits 18 432 cases, or/xor/mask/nibble tables, decide +kernel) lifted by induction. Trusted: Lean kernel; axioms within {propext, Classical.choice, Quot.sound}; hand-written heap model of Rc/Cow validated by correspondence; iterators collected eagerly in the model; lengths < 2^32 bits. slice()/is_u8_slice() are alignment-dependent by contract; seek/substr positions are absolute by design.",
         "technique": "Lean 4 proof over executable model + differential correspondence with the Rust implementation",
     },
 }
